@@ -1209,6 +1209,22 @@ def strata_catalogue(tables, texts):  # pylint: disable=too-many-locals,too-many
 		first_include_family(area)
 		namespace_family(area)
 
+	def namespace_like_a_directory(rng, path, lines):
+		# a test utility directory (…/tests/…/test/…): the namespace must be catapult::test; the name of a directory ABOVE the file is
+		# a wrong namespace that a substring test against the path would let through
+		parts = path.split('/')
+		if parts[0] != 'tests' or 'test' not in parts[1:-1] or 'int' in parts or 'bench' in parts or 'mocks' in parts:
+			return None
+		candidates = [k for k in range(len(lines)) if lines[k] == 'namespace catapult { namespace test {']
+		names = [part for part in parts[1:-1] if re.fullmatch(r'[a-z_]+', part) and part not in ('test', 'tests', 'catapult', 'mocks', 'int', 'bench')]
+		if not candidates or not names:
+			return None
+		i = rng.choice(candidates)
+		return Edit(
+			'', path, lines[:i] + [f'namespace catapult {{ namespace {rng.choice(names)} {{'] + lines[i + 1:], 'Inconsistent',
+			'namespace is inconsistent with file location', None, 'stratum namespace named after a directory above a test utility file')
+	add('namespace versus path [test utility directory, namespace named after a parent directory]', 'namespace catapult', namespace_like_a_directory)
+
 	# dependency rules: one stratum per --dep-check-dir
 	def dependency_family(kind, path_regex, include_prefix, replacement):
 		def make(rng, path, lines):
